@@ -411,3 +411,50 @@ def unclosed_group_paths(ctx):
                     ctx.counterexample('glob(%r, %s) = %r but globmatch(REALPATH) accepts %r (an unclosed group is plain text for the walker as for the matcher)' % (
                         p, corr.flag_names(fv), got, want), {'pattern': p, 'flags': corr.flag_names(fv), 'tree': spec})
     return n
+
+
+def inert_arguments(ctx, rng, ntrees=3):
+    """Arguments that cannot change the answer do not change it: an `exclude=` pattern that matches nothing (alone and
+    together with NODIR, MARK, NOUNIQUE, MATCHBASE, FOLLOW, REALPATH), the root directory written with a trailing
+    separator, NOUNIQUE on a single pattern.  Walk, REALPATH matcher (candidates also through links), compiled matcher.
+    Returns the number of evaluations."""
+    import trees
+    from wcmatch import glob as Gm
+    n = 0
+    found = 0
+    pats = [t for _, t in patterns_for(rng, 10)] + ['*', '**', '**/*.txt', '*/', 'vis/**', '**/x*', 'sub', 'real/', '*/*', '**/data.txt', 'p1/**/f', '*/lnk/**']
+    for ti in range(ntrees):
+        sp = trees.DESIGNED[[0, 4, 2, 6, 5, 1][ti % 6]]
+        with trees.Tree(sp) as T:
+            if has_dir_cycle(T.root):
+                continue
+            cands = sorted(set(T.entries()) | set(T.entries_follow(3)))
+            for p in pats:
+                for fv in (Gm.GLOBSTAR, Gm.GLOBSTAR | Gm.NODIR, Gm.GLOBSTAR | Gm.MARK | Gm.DOTGLOB, Gm.GLOBSTAR | Gm.MATCHBASE, Gm.GLOBSTAR | Gm.FOLLOW,
+                           Gm.GLOBSTAR | Gm.NODIR | Gm.NEGATE, Gm.GLOBSTAR | Gm.EXTGLOB | Gm.NOUNIQUE):
+                    try:
+                        want = Gm.glob(p, flags=fv, root_dir=T.root)
+                        wantm = [c for c in cands if Gm.globmatch(c, p, flags=fv | Gm.REALPATH, root_dir=T.root)]
+                    except Exception:
+                        continue
+                    variants = [('exclude= that matches nothing', dict(flags=fv, root_dir=T.root, exclude='zz-no-such-name*')),
+                                ('exclude= list that matches nothing', dict(flags=fv, root_dir=T.root, exclude=['zz-none', '*/zz-none/**'])),
+                                ('root_dir with a trailing separator', dict(flags=fv, root_dir=T.root + '/')),
+                                ('NOUNIQUE on a single pattern', dict(flags=fv | Gm.NOUNIQUE, root_dir=T.root))]
+                    for how, kw in variants:
+                        n += 1
+                        try:
+                            got = Gm.glob(p, **kw)
+                            kwm = dict(kw, flags=kw['flags'] | Gm.REALPATH)
+                            gotm = [c for c in cands if Gm.globmatch(c, p, **kwm)]
+                            gotc = [c for c in cands if Gm.compile(p, flags=kwm['flags'], **({'exclude': kw['exclude']} if 'exclude' in kw else {})).match(c, root_dir=kw['root_dir'])]
+                        except Exception as e:
+                            got, gotm, gotc = 'EXC %s' % type(e).__name__, None, None
+                        if (got != want or gotm != wantm or gotc != wantm) and found < 4:
+                            found += 1
+                            what = 'glob' if got != want else ('globmatch(REALPATH)' if gotm != wantm else 'compile().match(REALPATH)')
+                            a_, b_ = (got, want) if got != want else ((gotm, wantm) if gotm != wantm else (gotc, wantm))
+                            ctx.counterexample('%s(%r, %s) with %s: %r; without: %r' % (what, p, corr.flag_names(fv), how,
+                                               a_ if isinstance(a_, str) else [x for x in a_ if x not in b_][:4] or a_[:4], [x for x in b_ if isinstance(a_, str) or x not in a_][:4] or b_[:4]),
+                                               {'pattern': p, 'flags': corr.flag_names(fv), 'variant': how, 'tree': sp})
+    return n
